@@ -6,6 +6,9 @@
 ID=$1; K=$2; TESTS=$3; shift 3; CHECKS=${@:-$ID}
 SW=/tmp/seedwork_$ID; V=/verif; WT=/tmp/seval_${ID}_$K
 OUT=$V/seeded/$ID-$K; mkdir -p $OUT
+PREV=""; if [ -f $OUT/meta.json ]; then PREV=$(mktemp); cp $OUT/meta.json $PREV; fi
+# a patch that was re-based by hand onto a later /repo HEAD lives in seeded/<ID>-<k>/patch.diff; SEED_USE_STORED=1 re-evaluates it
+if [ -n "$SEED_USE_STORED" ]; then SW=$(mktemp -d); cp $OUT/patch.diff $SW/patch$K.diff; cp $OUT/demo.py $SW/demo$K.py; cp $OUT/seeder_meta.json $SW/meta$K.json 2>/dev/null; fi
 cp $SW/patch$K.diff $OUT/patch.diff; cp $SW/demo$K.py $OUT/demo.py; cp $SW/meta$K.json $OUT/seeder_meta.json 2>/dev/null
 git -C /repo worktree add --detach $WT HEAD -q || exit 2
 run_demo() { (cd $WT && PYTHONPATH=/tmp/seed_shim:$WT timeout 900 /venv/bin/python $OUT/demo.py >/tmp/seval_demo.log 2>&1; echo $?); }
@@ -27,4 +30,16 @@ cat > $OUT/meta.json <<EOM
  "baseline_tests_run": "$TESTS", "baseline_tests_rc_with_change": "$tests_rc",
  "checks": [${res%,}], "repo_head": "$(git -C /repo rev-parse --short HEAD)", "tier": "${TIER:-quick}"}
 EOM
+if [ -n "$PREV" ]; then /venv/bin/python - $PREV $OUT/meta.json <<'EOP'
+import json, sys
+old, new = json.load(open(sys.argv[1])), json.load(open(sys.argv[2]))
+for k in ("history", "summary", "needs"):
+    if k in old:
+        new[k] = old[k]
+prev = old.pop("previous_evaluations", [])
+prev.append({"repo_head": old.get("repo_head"), "checks": old.get("checks"), "demo_rc_with_change": old.get("demo_rc_with_change")})
+new["previous_evaluations"] = prev
+json.dump(new, open(sys.argv[2], "w"), indent=1)
+EOP
+rm -f $PREV; fi
 echo "demo without=$d0 with=$d1 tests_rc=$tests_rc"
